@@ -53,8 +53,11 @@ Record mem := mkMem {
   m_hull : snap;                               (* cindex in memory *)
   m_pipes : list nat;
   m_cur : list (nat * nat);                    (* partition -> id of the chunk being written *)
-  m_prog : list (nat * nat)                    (* ppipe.partitions: pipe -> position in the source; no entry: the
+  m_prog : list (nat * nat);                   (* ppipe.partitions: pipe -> position in the source; no entry: the
                                                   position is taken from the next write notification *)
+  m_phull : snap                               (* chunk infos marked HullPartial: the index learnt about the chunk from a write
+                                                  while the chunk already held records; the range covers what was written since.
+                                                  Such a chunk has NO entry in [m_hull]: it is reported with an unlimited range *)
 }.
 
 (* the repaired behaviours; the code is [code_fix], the code before the repairs [unrepaired] *)
@@ -64,15 +67,17 @@ Record fixes := mkFix { fx_sync : bool;       (* partition.Service.Shutdown sync
                         fx_snap : bool;       (* cindex.dat is consumed (removed) by Init once it is loaded *)
                         fx_drop : bool;       (* deleteJournal removes the directory first, the tag-index record after it *)
                         fx_prog : bool;       (* not a repair: newPPipe ignores the error of loadPipeInfo (the code does) *)
-                        fx_reg : bool }.      (* the pipe definitions have a file of their own (registry.dat); off: they are in
+                        fx_reg : bool;      (* the pipe definitions have a file of their own (registry.dat); off: they are in
                                                  pipes.dat, which is also pipe<name>.dat of the pipe named "s" ([reg_twin]) *)
-Definition code_fix : fixes := mkFix true true true true true true true.
-Definition unrepaired : fixes := mkFix false false false false false true false.
+                        fx_partial : bool }.  (* the HullPartial mark of a chunk info is written to cindex.dat (it is: not a
+                                                 repair of this property's round, the code since /repo 9f7c658) *)
+Definition code_fix : fixes := mkFix true true true true true true true true.
+Definition unrepaired : fixes := mkFix false false false false false true false true.
 (* the pipe (by its number) whose progress file has the name the definitions' file used to have *)
 Definition reg_twin (n : nat) : bool := Nat.eqb n 5.
 
 Definition empty_disk : disk := mkDisk None None None None [] O [].
-Definition empty_mem : mem := mkMem [] [] [] [] [] [].
+Definition empty_mem : mem := mkMem [] [] [] [] [] [] [].
 
 (* ---- association lists ---- *)
 Fixpoint lookup {A} (p : nat) (l : list (nat * A)) : option A :=
@@ -119,12 +124,13 @@ Inductive crash_at : disk -> list teff -> disk -> Prop :=
 
 (* ---- steps of a session ---- *)
 Inductive step := SWrite (p : nat) (ts : list Z) | SSync | SPipe (n : nat) | SDelPipe (n : nat)
-                | SDrop (p : nat) | SDrain (n s t : nat).
+                | SDrop (p : nat) | SDrain (n s t : nat)
+                | SBlindWrite (p : nat) (ts : list Z).   (* a write that finds the chunk unknown to the time index *)
 
 Definition events_of (p : nat) (j : list (nat * (nat * list Z))) : list Z :=
   match lookup p j with Some (_, evs) => evs | None => [] end.
 Definition flush_all (m : mem) (d : disk) : mem * disk :=
-  (mkMem (m_parts m) [] (m_hull m) (m_pipes m) (m_cur m) (m_prog m),
+  (mkMem (m_parts m) [] (m_hull m) (m_pipes m) (m_cur m) (m_prog m) (m_phull m),
    mkDisk (d_tdat d) (d_tbak d) (d_cdat d) (d_pdat d)
           (fold_left (fun j pb => match lookup (fst pb) (m_cur m) with
                                   | Some cid => update (fst pb) (cid, events_of (fst pb) j ++ snd pb) j
@@ -182,7 +188,7 @@ Definition do_write (fx : fixes) (m : mem) (d : disk) (p : nat) (ts : list Z) : 
              end in
   (mkMem parts (update p (get_list p (m_buf m) ++ ts) (m_buf m))
          (match widen (lookup cid (m_hull m)) ts with Some h => update cid h (m_hull m) | None => m_hull m end)
-         (m_pipes m) (update p cid (m_cur m)) (m_prog m), d'').
+         (m_pipes m) (update p cid (m_cur m)) (m_prog m) (m_phull m), d'').
 
 Definition do_step (fx : fixes) (md : mem * disk) (s : step) : mem * disk :=
   let '(m, d) := md in
@@ -192,20 +198,32 @@ Definition do_step (fx : fixes) (md : mem * disk) (s : step) : mem * disk :=
   | SPipe n =>
       if mem_nat n (m_pipes m) then (m, d)
       else let ps := m_pipes m ++ [n] in
-           (mkMem (m_parts m) (m_buf m) (m_hull m) ps (m_cur m) (m_prog m), if fx_pipes fx then save_pipes fx d ps else d)
+           (mkMem (m_parts m) (m_buf m) (m_hull m) ps (m_cur m) (m_prog m) (m_phull m), if fx_pipes fx then save_pipes fx d ps else d)
   | SDelPipe n =>
       if mem_nat n (m_pipes m) then
         let ps := filter (fun x => negb (Nat.eqb x n)) (m_pipes m) in
-        (mkMem (m_parts m) (m_buf m) (m_hull m) ps (m_cur m) (m_prog m), if fx_pipes fx then save_pipes fx d ps else d)
+        (mkMem (m_parts m) (m_buf m) (m_hull m) ps (m_cur m) (m_prog m) (m_phull m), if fx_pipes fx then save_pipes fx d ps else d)
       else (m, d)                                (* NotFound: nothing changes, nothing is saved *)
   | SDrop p =>
       (* TRUNCATE removes every chunk, then deleteJournal: the directory is removed and TIndex.Delete takes the record out
          and saves the index ([drop_effs]: in which order); what the chunk writer still buffered goes with it *)
       if mem_nat p (m_parts m) then
         let parts := filter (fun x => negb (Nat.eqb x p)) (m_parts m) in
-        (mkMem parts (remove_key p (m_buf m)) (m_hull m) (m_pipes m) (remove_key p (m_cur m)) (m_prog m),
+        (mkMem parts (remove_key p (m_buf m)) (m_hull m) (m_pipes m) (remove_key p (m_cur m)) (m_prog m) (m_phull m),
          fold_left (fun d e => dapply fx e d) (drop_effs fx p parts) d)
       else (m, d)
+  | SBlindWrite p ts =>
+      (* cindex.onWrite for a source the index does not know (no snapshot was loaded, nothing was asked yet) while the chunk
+         already holds records (firstRec > 0): the info gets the range of this write only and the mark HullPartial - it is
+         reported with an unlimited range, a rebuild is requested (and has not run: the rebuilder is held). A chunk that
+         does not exist yet is simply created *)
+      match lookup p (m_cur m) with
+      | Some cid =>
+          let '(m1, d1) := do_write fx m d p ts in
+          (mkMem (m_parts m1) (m_buf m1) (remove_key cid (m_hull m)) (m_pipes m1) (m_cur m1) (m_prog m1)
+                 (match widen (lookup cid (m_phull m)) ts with Some h => update cid h (m_phull m) | None => m_phull m end), d1)
+      | None => do_write fx m d p ts
+      end
   | SDrain n s t =>
       (* the worker of the pipe number n from partition s to partition t has run, started or woken by a write to s that is
          the only buffered data of s (the round of the harness), and caught up. Its position: the one in memory; none (new
@@ -218,7 +236,7 @@ Definition do_step (fx : fixes) (md : mem * disk) (s : step) : mem * disk :=
         let src := events_of s (d_jrnl d) in
         let pos := match lookup n (m_prog m) with Some k => k | None => length src end in
         let '(m1, d1) := do_write fx m d t (skipn pos src) in
-        (mkMem (m_parts m1) (m_buf m1) (m_hull m1) (m_pipes m1) (m_cur m1) (update n (length src) (m_prog m1)),
+        (mkMem (m_parts m1) (m_buf m1) (m_hull m1) (m_pipes m1) (m_cur m1) (update n (length src) (m_prog m1)) (m_phull m1),
          mkDisk (d_tdat d1) (d_tbak d1) (d_cdat d1)
                 (if negb (fx_reg fx) && reg_twin n then Some (Torn O) else d_pdat d1)
                 (d_jrnl d1) (d_next d1) (update n (Whole (length src)) (d_prog d1)))
@@ -229,9 +247,15 @@ Definition run_steps (fx : fixes) (md : mem * disk) (l : list step) : mem * disk
 
 (* ---- the end of a session: what is on disk when the process is gone ---- *)
 (* graceful: every Shutdown runs (pipes.dat, the journals are synced, cindex.dat); then exit *)
+(* cindex.saveDataToFile: every chunk info. One that is marked HullPartial is saved with its mark: the start that loads it
+   asks for the rebuild again and reports the chunk with an unlimited range until then - in this model: the chunk has no
+   entry, its hull is collected from the chunk. Without the mark in the file ([fx_partial] off) the narrow range is loaded
+   as the chunk's range *)
+Definition saved_hulls (fx : fixes) (m : mem) : snap := m_hull m ++ (if fx_partial fx then [] else m_phull m).
+
 Definition graceful (fx : fixes) (m : mem) (d : disk) : disk :=
   let '(m1, d1) := if fx_sync fx then flush_all m d else (m, d) in
-  mkDisk (d_tdat d1) (d_tbak d1) (Some (Whole (m_hull m1))) (Some (Whole (m_pipes m1))) (d_jrnl d1) (d_next d1) (clobber_twin fx (d_prog d1)).
+  mkDisk (d_tdat d1) (d_tbak d1) (Some (Whole (saved_hulls fx m1))) (Some (Whole (m_pipes m1))) (d_jrnl d1) (d_next d1) (clobber_twin fx (d_prog d1)).
 (* SIGKILL: nothing runs *)
 Definition killed (m : mem) (d : disk) : disk := d.
 
@@ -335,18 +359,19 @@ Definition start (fx : fixes) (d : disk) : option (mem * disk) :=
       let j := filter has_data (d_jrnl d) in
       (* the snapshot is consumed: cindex.init removes cindex.dat once the attempt to load it is over *)
       let d0 := mkDisk (d_tdat d) (d_tbak d) (if fx_snap fx then None else d_cdat d) (d_pdat d) j (d_next d) (d_prog d) in
-      Some (mkMem parts [] (light_fill j (prune j (cindex_init d))) pipes (map (fun pe => (fst pe, fst (snd pe))) j) prog,
+      Some (mkMem parts [] (light_fill j (prune j (cindex_init d))) pipes (map (fun pe => (fst pe, fst (snd pe))) j) prog [],
             tsave fx d0 parts)           (* checkConsistency ends with saveStateUnsafe *)
   | _, _ => None
   end end.
 
 (* ---- what a client sees ---- *)
-(* RANGE [lo:hi] on a partition: the chunk is skipped when the index says its newest record is older than lo;
+(* RANGE [lo:hi] on a partition: the chunk is skipped when the index says its newest record is older than lo or its oldest
+   one newer than hi (chkSelector.updatePoss, case 1);
    otherwise the records are filtered (timestamps increasing, bounds between timestamps: everything else is C02) *)
 Definition in_range (lo hi t : Z) : bool := (lo <=? t) && (t <=? hi).
 Definition range_query (h : option hull) (evs : list Z) (lo hi : Z) : list Z :=
   match h with
-  | Some (a, b) => if b <? lo then [] else filter (in_range lo hi) evs
+  | Some (a, b) => if (b <? lo) || (hi <? a) then [] else filter (in_range lo hi) evs
   | None => filter (in_range lo hi) evs
   end.
 
